@@ -13,6 +13,7 @@ import (
 	"flag"
 	"fmt"
 	"io"
+	"net"
 	"runtime"
 	"sort"
 	"sync"
@@ -194,6 +195,8 @@ type obs struct {
 	Goroutines     int      `json:"goroutines_left"`
 	ResCap         int      `json:"res_cap"`
 	Scenario       string   `json:"scenario"`
+	AfterCancelMs  int64    `json:"after_cancel_ms"` // scenario "cancelled during the exit delay": return time after the cancellation
+	Rate           string   `json:"rate,omitempty"`  // wired runs: the --rate string
 }
 
 func runCase(idx int, class string, w, cap int, reqs []req, cancelAt int, delay time.Duration, slow bool) (o obs) {
@@ -258,6 +261,11 @@ func runCaseX(idx int, class string, w, cap int, reqs []req, cancelAt int, delay
 		return
 	}
 	lg := &recLogger{Logger: real}
+	var tCancel atomic.Int64
+	inDelay := cancelAt == -2
+	if inDelay {
+		o.Scenario = "cancelled during the exit delay"
+	}
 	results := scan.NewResultChan(ctx, resCap)
 	var gen scan.RequestGenerator = &scriptGen{reqs, cap}
 	if stalled {
@@ -273,6 +281,17 @@ func runCaseX(idx int, class string, w, cap int, reqs []req, cancelAt int, delay
 	before := runtime.NumGoroutine()
 	ret := make(chan string, 1)
 	t0 := time.Now()
+	if inDelay {
+		// Ctrl-C shortly after the last probe finished, while the exit delay is still running
+		go func() {
+			for atomic.LoadInt32(&engine.doneSeen) == 0 {
+				time.Sleep(time.Millisecond)
+			}
+			time.Sleep(20 * time.Millisecond)
+			tCancel.Store(time.Now().UnixNano())
+			cancel()
+		}()
+	}
 	go func() {
 		defer func() {
 			if r := recover(); r != nil {
@@ -290,6 +309,9 @@ func runCaseX(idx int, class string, w, cap int, reqs []req, cancelAt int, delay
 		o.Returned = false
 	}
 	o.ElapsedMs = time.Since(t0).Milliseconds()
+	if tc := tCancel.Load(); tc != 0 {
+		o.AfterCancelMs = (time.Now().UnixNano() - tc) / 1e6
+	}
 	o.DoneSeen = atomic.LoadInt32(&engine.doneSeen) != 0
 	o.StartedAtDone, o.FinishedAtDone = atomic.LoadInt64(&engine.startedAtDone), atomic.LoadInt64(&engine.finishedAtDone)
 	sc.mu.Lock()
@@ -325,6 +347,99 @@ func runCaseX(idx int, class string, w, cap int, reqs []req, cancelAt int, delay
 	return o
 }
 
+// countScanner records every Scan call by target
+type countScanner struct {
+	mu    sync.Mutex
+	calls map[string]int
+}
+
+func (c *countScanner) Scan(_ context.Context, r *scan.Request) (scan.Result, error) {
+	c.mu.Lock()
+	c.calls[fmt.Sprintf("%s:%d", r.DstIP, r.DstPort)]++
+	c.mu.Unlock()
+	return nil, nil
+}
+
+type wiredObs struct {
+	Class    string         `json:"class"`
+	Rate     string         `json:"rate"`
+	Workers  int            `json:"workers"`
+	Targets  []string       `json:"targets"`
+	Calls    map[string]int `json:"calls"`
+	Done     bool           `json:"done"`
+	Err      string         `json:"err"`
+	Ms       int64          `json:"ms"`
+	BoundMs  int64          `json:"bound_ms"`
+}
+
+// runWired: the engine exactly as the application-scan commands build it (parseRawOptions on the raw --rate
+// string, then genericScanCmdOpts.newScanEngine), real request generator over 127.0.0.0/31 x one port, counting
+// scanner. Rates below one per second included.
+func runWired(outp string) {
+	type cfg struct {
+		rate    string
+		workers int
+		boundMs int64
+	}
+	var cfgs []cfg
+	for _, w := range []int{1, 4, 100} {
+		for _, r := range []struct {
+			s string
+			b int64
+		}{{"", 3000}, {"100/s", 3000}, {"5/s", 4000}, {"1/1500ms", 8000}, {"2/3s", 8000}, {"3/4s", 8000}, {"40/m", 8000}} {
+			cfgs = append(cfgs, cfg{r.s, w, r.b})
+		}
+	}
+	res := make([]wiredObs, len(cfgs))
+	var wg sync.WaitGroup
+	for i, c := range cfgs {
+		wg.Add(1)
+		go func(i int, c cfg) {
+			defer wg.Done()
+			o := wiredObs{Class: "wired", Rate: c.rate, Workers: c.workers, Targets: []string{"127.0.0.0:80", "127.0.0.1:80"}, BoundMs: c.boundMs}
+			defer func() { res[i] = o }()
+			ctx, cancel := context.WithCancel(context.Background())
+			defer cancel()
+			sc := &countScanner{calls: map[string]int{}}
+			eng, err := command.VerifC15NewGenericEngine(ctx, c.rate, c.workers, sc)
+			if err != nil {
+				o.Err = err.Error()
+				return
+			}
+			_, subnet, _ := net.ParseCIDR("127.0.0.0/31")
+			subnet.IP = subnet.IP.To4()
+			t0 := time.Now()
+			done, errc := eng.Start(ctx, &scan.Range{DstSubnet: subnet, Ports: []*scan.PortRange{{StartPort: 80, EndPort: 80}}})
+			go func() {
+				for range eng.Results() {
+				}
+			}()
+			go func() {
+				for range errc {
+				}
+			}()
+			select {
+			case <-done:
+				o.Done = true
+			case <-time.After(time.Duration(c.boundMs) * time.Millisecond):
+			}
+			o.Ms = time.Since(t0).Milliseconds()
+			sc.mu.Lock()
+			o.Calls = map[string]int{}
+			for k, v := range sc.calls {
+				o.Calls[k] = v
+			}
+			sc.mu.Unlock()
+		}(i, c)
+	}
+	wg.Wait()
+	w := hlib.NewOut(outp)
+	defer w.Close()
+	for i := range res {
+		w.Put(res[i])
+	}
+}
+
 func genReqs(r *hlib.SplitMix64, count, pBad, pPos, pFail int) []req {
 	reqs := make([]req, count)
 	for i := range reqs {
@@ -349,7 +464,12 @@ func main() {
 	delayMs := flag.Int("delay", 300, "exit delay in ms for complete runs")
 	par := flag.Int("par", 12, "runs in parallel")
 	only := flag.Int("only", -1, "run only the case with this index (same seed, same script)")
+	wired := flag.Bool("wired", false, "run the engines the socks/docker/elastic commands build (option parsing + newScanEngine) for --rate / --workers settings incl. rates below 1/s")
 	flag.Parse()
+	if *wired {
+		runWired(*outp)
+		return
+	}
 	r := hlib.NewRand(*seed)
 	workers := []int{1, 2, 7, 100, 1000}
 	type job struct {
@@ -382,6 +502,12 @@ func main() {
 	for i := 0; i < *cancels; i++ {
 		w := workers[r.Intn(len(workers))]
 		cnt := 1 + r.Intn(600)
+		if i%7 == 5 {
+			// the scan completes; the cancellation falls inside a long exit delay
+			jobs = append(jobs, job{idx: len(jobs), w: w, cap: []int{0, 1, 100}[r.Intn(3)], cancelAt: -2, class: "cancel",
+				reqs: genReqs(r, 1+r.Intn(60), 20, 40, 20), delay: time.Duration(4+r.Intn(4)) * time.Second, resCap: 1000})
+			continue
+		}
 		switch i % 5 {
 		case 3:
 			// the whole result path is full when the cancellation falls: every worker is parked in Put
